@@ -1,13 +1,15 @@
 ---------------------------- MODULE UserFunc_MC ----------------------------
 (* Bounded model of programs with user-defined functions: a state is an option set (case sensitivity -U, RADIX) and   *)
-(* a sequence of <= MaxDefs FUNCTION statements; around it stand the fixed symbols of Syms.  For every position p of   *)
-(* a probe statement (in front of, between, behind the definitions), with and without a forward reference elsewhere    *)
-(* in the program (one pass / two passes), and every probe formula of Probes the invariants compare                    *)
+(* a sequence of FUNCTION statements that grows along the programs of Progs (Level 1: a curated list, Level 2: plus     *)
+(* every single definition of a small grammar and every pair first definition x core definition); around it stand the   *)
+(* fixed symbols of Syms.  For every position p of a probe statement (in front of, between, behind the definitions),    *)
+(* with and without a forward reference elsewhere in the program (one pass / two passes), and every probe formula of    *)
+(* Probes the invariant compares                                                                                        *)
 (*     Mach = the transcription of the code (function table across passes, text substitution, re-evaluation)           *)
 (*     Doc  = the declarative meaning                                                                                  *)
-(* and, with EmitCases, print the program and both results for the replay into the real assembler.                     *)
+(* and, with EmitCases, prints the program and both results for the replay into the real assembler.                     *)
 EXTENDS UserFunc, Json
-CONSTANTS Level,          \* 1 quick, 2 thorough, 3 = a few hand-picked states (smoke)
+CONSTANTS Level,          \* 0 = four programs (refutation of the model mutations), 1 quick, 2 thorough
           MaxDefs,
           EmitCases,      \* TRUE: the invariant Emit prints every state
           ExcludeKnown    \* TRUE: cases that run into a named deviation of the pinned code are exempt from Agreement
@@ -49,58 +51,98 @@ Syms == << Sym("s", IntV(5), "none", FALSE, 0), Sym("xy", IntV(7), "none", FALSE
 (* ---- the universe of definitions ---------------------------------------------------------------------------------- *)
 Def(nk, ps, b) == [nkey |-> nk, name |-> Info[nk].src, params |-> ps, body |-> b]
 
+\* bodies from the small grammar  E ::= parameter | 2 | s | E (+|*|-) E | g(E) | abs(E) | f(E, E)   (depth <= 2)
 Leaves(ps) == {A(ps[i]) : i \in 1..Len(ps)} \cup {A("n2"), A("s")}
 Arith == {"+", "*", "-"}
 Grammar(ps) ==
   LET L == Leaves(ps)
       P == {A(ps[i]) : i \in 1..Len(ps)}
-      R == IF Level >= 2 THEN L ELSE P \cup {A("n2")}
-  IN L \cup {Bin(o, l, r) : o \in Arith, l \in L, r \in R}
-       \cup {Fun(h, <<l>>) : h \in {"g", "abs"}, l \in P}
-       \cup {Fun("f", <<l, r>>) : l \in P, r \in IF Level >= 2 THEN L ELSE {A("n2")}}
+  IN L \cup {Bin(o, l, r) : o \in Arith, l \in L, r \in L}
+       \cup {Fun(h, <<l>>) : h \in {"g", "abs"}, l \in L}
+       \cup {Fun("f", <<l, r>>) : l \in P, r \in L}
+\* bodies around the questions of the task: whole identifier or substring, quotes, case, parentheses, types, nesting
 Specials(ps) ==
   LET p == A(ps[1]) IN
   {Bin("+", A("xy"), p), Bin("+", A("x_1"), p), Bin("+", Fun("strlen", <<A("sx")>>), p), Bin("+", A("X"), A("n1")), Un("neg", p),
-   Bin("*", p, Bin("+", p, A("n1"))), Bin("-", A("n10"), Bin("-", A("n3"), p)), Bin("^", p, A("n2")),
-   Bin("+", Fun("g", <<p>>), Fun("g", <<A("n1")>>)), Fun("g", <<Fun("g", <<p>>)>>), Bin("+", Fun("strlen", <<p>>), A("n1"))}
-Bodies(ps) == Grammar(ps) \cup Specials(ps)
+   Bin("*", p, Bin("+", p, A("n1"))), Bin("-", A("n10"), Bin("-", A("n3"), p)), Bin("^", p, A("n2")), Bin("+", p, p),
+   Bin("+", Fun("g", <<p>>), Fun("g", <<A("n1")>>)), Fun("g", <<Fun("g", <<p>>)>>), Bin("+", Fun("strlen", <<p>>), A("n1")),
+   Bin("*", p, A("n2")), Bin("-", A("n2"), p), Bin("+", A("s"), p), Fun("abs", <<p>>)}
 
-ParamLists == IF Level >= 2 THEN {<<"x">>, <<"x", "y">>, <<"y", "x">>, <<"s">>, <<"g">>, <<"x", "x">>, <<"X">>, <<"x", "X">>}
-              ELSE {<<"x">>, <<"x", "y">>, <<"s">>, <<"g">>}
+ParamLists == {<<"x">>, <<"x", "y">>, <<"y", "x">>, <<"s">>, <<"g">>, <<"x", "x">>, <<"X">>, <<"x", "X">>}
 Names == {"f", "g", "F", "Abs"}
-\* a definition whose parameter is no macro symbol name, one without parameter, one with a branching recursion
+\* a parameter that is no macro symbol name, no parameter at all
 OddDefs == {Def("f", <<"xdy">>, Bin("+", A("xdy"), A("n1"))), Def("f", <<>>, A("n2"))}
-FirstDefs == UNION {{Def(n, ps, b) : n \in Names, b \in Bodies(ps)} : ps \in ParamLists} \cup OddDefs
+FirstDefs == UNION {{Def(n, ps, b) : n \in {"f", "Abs"}, b \in Grammar(ps) \cup Specials(ps)} : ps \in ParamLists} \cup OddDefs
 \* what may follow a first definition: a small core, enough for nesting, recursion, redefinition, hiding, case variants
 CoreBodies(ps) == LET p == A(ps[1]) IN
-  {Bin("*", p, A("n2")), Bin("-", A("n2"), p), Fun("g", <<p>>), Fun("f", <<p, A("n2")>>), Fun("abs", <<p>>)}
+  {Bin("*", p, A("n2")), Bin("-", A("n2"), p), Fun("g", <<p>>), Fun("f", <<p, A("n2")>>), Fun("abs", <<p>>),
+   Bin("+", Fun("f", <<p>>), Fun("g", <<p>>))}
   \cup (IF Len(ps) > 1 THEN {Bin("-", p, A(ps[2])), Fun("g", <<A(ps[2])>>)} ELSE {})
-  \cup (IF Level >= 2 THEN {Bin("+", Fun("f", <<p>>), Fun("f", <<p>>)), Bin("+", p, A("s"))} ELSE {})
-MoreDefs == UNION {{Def(n, ps, b) : n \in Names, b \in CoreBodies(ps)} : ps \in {<<"x">>, <<"x", "y">>}}
+CoreDefs == UNION {{Def(n, ps, b) : n \in Names, b \in CoreBodies(ps)} : ps \in {<<"x">>, <<"x", "y">>}}
 
-SmokeProgs == { <<Def("f", <<"x">>, Bin("*", A("x"), A("n2")))>>,
-                <<Def("f", <<"x", "y">>, Bin("-", A("x"), A("y"))), Def("g", <<"x">>, Fun("f", <<A("x"), A("n2")>>))>>,
-                <<Def("g", <<"x">>, Fun("g", <<A("x")>>))>>,
-                <<Def("Abs", <<"x">>, Bin("+", A("x"), A("n10")))>> }
+OddProgs == {<<d>> : d \in OddDefs}
+x1 == <<"x">>
+x2 == <<"x", "y">>
+px == A("x")
+RefuteProgs == { <<Def("f", x1, Bin("*", px, A("n2")))>>,
+                 <<Def("f", x2, Bin("-", px, A("y"))), Def("g", x1, Fun("f", <<px, A("n2")>>))>>,
+                 <<Def("g", x1, Fun("g", <<px>>))>>,
+                 <<Def("f", x1, Bin("+", A("xy"), px))>> }
+QuickProgs == RefuteProgs \cup
+  {<<Def("f", x1, b)>> : b \in Specials(x1)} \cup
+  { <<Def("f", x2, Bin("+", Bin("*", px, A("n10")), A("y")))>>,          \* two parameters, a constant of the radix in the body
+    <<Def("f", <<"y", "x">>, Bin("-", px, A("y")))>>,
+    <<Def("f", <<"s">>, Bin("+", A("s"), A("n2")))>>,                    \* parameter named like a symbol
+    <<Def("f", <<"g">>, Bin("*", A("g"), A("n2")))>>,                    \* parameter named like nothing / like a function below
+    <<Def("g", x1, Bin("+", px, A("n1"))), Def("f", <<"g">>, Bin("*", A("g"), A("n2")))>>,
+    <<Def("g", x1, Bin("+", px, A("n1"))), Def("f", <<"g">>, Fun("g", <<A("g")>>))>>,
+    <<Def("f", <<"x", "x">>, Bin("*", px, A("n2")))>>,                   \* the same parameter twice
+    <<Def("f", <<"X">>, Bin("+", px, A("n1")))>>,                        \* case of the parameter
+    <<Def("Abs", x1, Bin("+", px, A("n10")))>>,                          \* named like a built-in function
+    <<Def("F", x1, Bin("+", px, A("n3")))>>,
+    <<Def("f", x1, Bin("*", px, A("n2"))), Def("F", x1, Bin("+", px, A("n3")))>>,      \* second definition / case variant
+    <<Def("f", x1, Bin("*", px, A("n2"))), Def("f", x1, Bin("+", px, A("n3")))>>,
+    <<Def("f", x1, Fun("g", <<px>>)), Def("g", x1, Fun("f", <<px>>))>>,                \* mutual recursion
+    <<Def("f", x1, Fun("g", <<px>>)), Def("g", x1, Bin("-", A("n2"), px))>>,           \* the inner function comes later
+    <<Def("g", x1, Bin("-", A("n2"), px)), Def("f", x1, Fun("g", <<Fun("g", <<px>>)>>)), Def("F", x2, Fun("f", <<Bin("-", px, A("y"))>>))>>,
+    <<Def("f", x1, Bin("+", Fun("f", <<px>>), Fun("f", <<px>>)))>> }     \* recursion with two calls
+  \cup OddProgs
+
+Progs == CASE Level = 0 -> RefuteProgs
+           [] Level = 1 -> QuickProgs
+           [] OTHER -> QuickProgs \cup {<<d>> : d \in FirstDefs}
+                       \cup {<<d1, d2>> : d1 \in {Def("f", x1, b) : b \in CoreBodies(x1)} \cup {Def("Abs", x1, Bin("+", px, A("n10")))}, d2 \in CoreDefs}
+Curated == QuickProgs
 
 (* ---- probes ------------------------------------------------------------------------------------------------------ *)
-Args1 == {A("n1"), Bin("+", A("n1"), A("n2")), Un("neg", A("n3")), A("n10"), A("sab"), A("fw"), A("snl"), A("shi"), A("fh"),
-          Fun("f", <<A("n1")>>)}
-         \cup (IF Level >= 2 THEN {A("n255"), A("sbel"), A("sq"), A("f15"), A("s"), Bin("*", A("n3"), A("n10")), Un("neg", A("n10"))} ELSE {})
-Args2 == {<<A("n1"), A("n2")>>, <<Un("neg", A("n3")), A("n10")>>} \cup (IF Level >= 2 THEN {<<A("sab"), A("sab")>>, <<A("n1"), A("fw")>>} ELSE {})
+\* goal: the program of this behaviour; prog: <<>> first, then the program (one step: TLC's workers share the programs)
+VARIABLES opt, goal, prog, ready
+vars == <<opt, goal, prog, ready>>
+
+Rich == goal \in UNION {{SubSeq(q, 1, k) : k \in 0..Len(q)} : q \in Curated}
+\* behind the last definition the arguments vary; in front of a definition only the lookup of the name is in question
+ArgsLean == {A("n1"), Un("neg", A("n3"))}
+Args1(p) == IF p < Len(prog) THEN ArgsLean
+            ELSE {A("n1"), Bin("+", A("n1"), A("n2")), Un("neg", A("n3")), A("n10"), A("sab"), A("fw")}
+                 \cup (IF Rich THEN {A("snl"), A("shi"), A("fh"), Fun("f", <<A("n1")>>)} ELSE {})
+                 \cup (IF Rich /\ Level >= 2 THEN {A("n255"), A("sbel"), A("sq"), A("f15"), A("s"), Bin("*", A("n3"), A("n10")), Un("neg", A("n10"))} ELSE {})
+Args2(p) == {<<A("n1"), A("n2")>>} \cup (IF Rich /\ p = Len(prog) THEN {<<Un("neg", A("n3")), A("n10")>>} ELSE {})
+            \cup (IF Rich /\ Level >= 2 /\ p = Len(prog) THEN {<<A("sab"), A("sab")>>, <<A("n1"), A("fw")>>} ELSE {})
 CaseVariants(k) == CASE k \in {"f", "F"} -> {"f", "F"} [] k \in {"Abs", "abs", "ABS"} -> {"Abs", "abs", "ABS"} [] OTHER -> {k}
-ProbeNames(prog) == UNION {CaseVariants(prog[i].nkey) : i \in 1..Len(prog)} \cup {"abs", "nosuch"}
+CalledIn(q) == UNION {TreeCalls(q[i].body) \cap {"f", "g", "F", "Abs"} : i \in 1..Len(q)}
+\* the built-in function of the empty program is the same in every other one: probed there only
+ProbeNames == UNION {CaseVariants(prog[i].nkey) : i \in 1..Len(prog)} \cup CalledIn(prog) \cup (IF prog = <<>> THEN {"abs", "nosuch"} ELSE {})
 SymProbes == {Fun(sf, <<A(k)>>) : sf \in {"symtype", "defined", "SymType"}, k \in {"s", "lc", "vd", "vi", "vx", "vb", "myr", "fw", "nosuch", "f"}}
-Probes(prog) ==
-  {Fun(n, <<a>>) : n \in ProbeNames(prog), a \in Args1}
-  \cup {Fun(n, as) : n \in ProbeNames(prog), as \in Args2}
-  \cup {Bin("*", A("n2"), Fun(n, <<Un("neg", A("n3"))>>)) : n \in ProbeNames(prog)}
-  \cup {Bin("-", Fun(n, <<A("n1")>>), Fun(n, <<A("n2")>>)) : n \in ProbeNames(prog)}
-  \cup (IF Len(prog) <= 1 THEN SymProbes ELSE {})
+Probes(p) ==
+  {Fun(n, <<a>>) : n \in ProbeNames, a \in Args1(p)}
+  \cup {Fun(n, as) : n \in ProbeNames, as \in Args2(p)}
+  \cup (IF p = Len(prog) THEN {Bin("*", A("n2"), Fun(n, <<Un("neg", A("n3"))>>)) : n \in ProbeNames} ELSE {})
+  \cup (IF Rich /\ p = Len(prog) THEN {Bin("-", Fun(n, <<A("n1")>>), Fun(n, <<A("n2")>>)) : n \in ProbeNames} ELSE {})
+  \cup (IF prog = <<>> \/ (Len(prog) = 1 /\ prog \in RefuteProgs /\ p = 1) THEN SymProbes ELSE {})
+\* two passes: where the table of the first pass can matter, for the symbol functions, and once per function otherwise
+TwSet(p, e) == IF p < Len(prog) \/ e \in SymProbes \/ (e.k = "F" /\ e.args = <<A("n1")>>) THEN BOOLEAN ELSE {FALSE}
 
 (* ---- the two sides ----------------------------------------------------------------------------------------------- *)
-VARIABLES opt, prog
-vars == <<opt, prog>>
 Fuel == MaxDefs + 1
 
 RECURSIVE RunDefs(_, _, _, _, _)
@@ -111,80 +153,93 @@ RunDefs(pr, i, to, st, pass) ==
                              TextOf(pr[i].body), opt.cs, pass)
        IN RunDefs(pr, i + 1, to, <<r[1], Append(st[2], r[2])>>, pass)
 
-
-MentionsFw(t) == "fw" \in TreeAtoms(t)
-
+\* a forward reference to the VALUE of a symbol makes a second pass necessary (SYMTYPE / DEFINED do not read the value)
+MentionsFw(t) == "fw" \in TreeAtoms(t) /\ TreeCalls(t) \cap {"symtype", "defined", "SymType"} = {}
 Ctx(ft, pass, p) == [ft |-> ft, syms |-> Syms, cs |-> opt.cs, radix |-> opt.radix, pass |-> pass, here |-> p + 1, fuel |-> Fuel]
-
-Mach(p, tw, e) ==
-  LET n == Len(prog)
-      a1 == RunDefs(prog, 1, p, <<<<>>, <<>>>>, 1)                 \* pass 1 up to the probe
-      r1 == EvalTextM(TextOf(e), Ctx(a1[1], 1, p))
-      e1 == RunDefs(prog, p + 1, n, a1, 1)                          \* the rest of pass 1
+\* tabs = <<table in front of the probe in pass 1, table in front of the probe in pass 2>>
+Tabs(p) ==
+  LET a1 == RunDefs(prog, 1, p, <<<<>>, <<>>>>, 1)                  \* pass 1 up to the probe
+      e1 == RunDefs(prog, p + 1, Len(prog), a1, 1)                  \* the rest of pass 1
       \* pass 2 starts with the table pass 1 left behind: the statements in front of the probe change nothing
       a2 == RunDefs(prog, 1, p, <<e1[1], <<>>>>, 2)
+  IN <<a1[1], a2[1]>>
+MachT(tabs, p, tw, e) ==
+  LET txt == TextOf(e)
+      r1 == EvalTextM(txt, Ctx(tabs[1], 1, p))
   IN IF r1.t \in {"E", "D"} THEN r1
-     ELSE IF tw \/ MentionsFw(e) THEN EvalTextM(TextOf(e), Ctx(a2[1], 2, p))
+     ELSE IF tw \/ MentionsFw(e) THEN EvalTextM(txt, Ctx(tabs[2], 2, p))
      ELSE r1
 DefStatusM == RunDefs(prog, 1, Len(prog), <<<<>>, <<>>>>, 1)[2]
 
-Doc(p, e) ==
-  DocEval(e, <<>>, <<>>, [defs |-> SubSeq(prog, 1, p), later |-> SubSeq(prog, p + 1, Len(prog)), syms |-> Syms, cs |-> opt.cs,
+\* the definitions with their documented status (computed once per state)
+DocDefs == [i \in 1..Len(prog) |-> [name |-> prog[i].name, params |-> prog[i].params, body |-> prog[i].body,
+                                    st |-> DocDefStatus(prog[i], Info, opt.cs)]]
+DocT(dd, p, e) ==
+  DocEval(e, <<>>, <<>>, [defs |-> SubSeq(dd, 1, p), later |-> SubSeq(dd, p + 1, Len(dd)), syms |-> Syms, cs |-> opt.cs,
                           radix |-> opt.radix, here |-> p + 1, fuel |-> Fuel, info |-> Info])
 
 KnownDevs == (IF ArgPrint = "decimal" THEN {"userfunc_arg_radix"} ELSE {}) \cup (IF StrEscape = "dec3" THEN {"userfunc_arg_nonprint"} ELSE {})
 Definite(v) == v.t \in {"I", "F", "S", "E"}
+Obs(v) == IF v.t = "D" THEN [k |-> "crash"] ELSE Observable(v)
+
+CaseRec(dd, tabs, p, tw, e) ==
+  LET dc == DocT(dd, p, e)
+      m == MachT(tabs, p, tw, e)
+  IN [p |-> p, tw |-> tw, e |-> JoinS(TextOf(e)), doc |-> Obs(dc.r), mach |-> Obs(m), dev |-> dc.d,
+      call |-> IF e.k = "F" THEN JoinS(Info[e.f].src) ELSE "-",
+      \* machine as coded = declarative meaning wherever the manual is definite
+      agree |-> (Definite(dc.r) /\ (~ExcludeKnown \/ dc.d \cap KnownDevs = {})) => m = dc.r]
+Cases == LET dd == DocDefs IN
+         UNION {LET tabs == Tabs(p) IN UNION {{CaseRec(dd, tabs, p, tw, e) : e \in {x \in Probes(p) : tw \in TwSet(p, x)}} : tw \in BOOLEAN} : p \in 0..Len(prog)}
 
 (* ---- state machine ----------------------------------------------------------------------------------------------- *)
-Opts == IF Level >= 2 THEN {[cs |-> c, radix |-> r] : c \in BOOLEAN, r \in {10, 16, 8}}
-        ELSE {[cs |-> FALSE, radix |-> 10], [cs |-> TRUE, radix |-> 10], [cs |-> FALSE, radix |-> 16]}
-Init == opt \in Opts /\ prog = <<>>
-Next ==
-  /\ Len(prog) < MaxDefs
-  /\ IF Level = 3 THEN prog = <<>> /\ prog' \in SmokeProgs
-     ELSE \E d \in (IF prog = <<>> THEN FirstDefs ELSE MoreDefs) : prog' = Append(prog, d)
-  /\ UNCHANGED opt
+\* thorough: every program under {default, -U} x RADIX {10, 16, 8}; quick: -U where the case of a letter is in question,
+\* RADIX 16 where a constant stands in a body (and for the refutation programs)
+KeysOf(q) == UNION {{q[i].nkey} \cup {q[i].params[k] : k \in 1..Len(q[i].params)} \cup TreeAtoms(q[i].body) : i \in 1..Len(q)}
+OptsFor(q) ==
+  IF Level >= 2 THEN {[cs |-> c, radix |-> r] : c \in BOOLEAN, r \in {10, 16, 8}}
+  ELSE {[cs |-> FALSE, radix |-> 10]}
+       \cup (IF KeysOf(q) \cap {"X", "F", "Abs"} # {} \/ q \in RefuteProgs THEN {[cs |-> TRUE, radix |-> 10]} ELSE {})
+       \cup (IF KeysOf(q) \cap {"n10", "n3"} # {} \/ q \in RefuteProgs \/ q = <<>> THEN {[cs |-> FALSE, radix |-> 16]} ELSE {})
+\* every program of Progs and every prefix of it (a program in the making is a program)
+ProgsClosed == UNION {{SubSeq(q, 1, k) : k \in 0..Len(q)} : q \in Progs}
+Init == goal \in ProgsClosed /\ opt \in OptsFor(goal) /\ prog = <<>> /\ ready = FALSE
+Next == ~ready /\ prog' = goal /\ ready' = TRUE /\ UNCHANGED <<opt, goal>>
 Spec == Init /\ [][Next]_vars
+Ready == ready
+ASSUME \A q \in Progs : Len(q) <= MaxDefs
 
-Positions == 0..Len(prog)
+DefLine(d) ==
+  JoinS(d.name \o <<" ", "f", "u", "n", "c", "t", "i", "o", "n", " ">>
+        \o Explode([i \in 1..(2 * Len(d.params)) |-> IF i % 2 = 1 THEN d.params[(i + 1) \div 2] ELSE ","]) \o TextOf(d.body))
 
-\* machine as coded = declarative meaning wherever the manual is definite
+\* Agreement (and the export of every case for the replay): one evaluation of both sides per case
 Agreement ==
-  \A p \in Positions : \A e \in Probes(prog) :
-     LET dc == Doc(p, e) IN
-     (Definite(dc.r) /\ (~ExcludeKnown \/ dc.d \cap KnownDevs = {})) =>
-        \A tw \in BOOLEAN : Mach(p, tw, e) = dc.r
+  Ready =>
+  LET cs == Cases IN
+  /\ \A c \in cs : c.agree \/ (PrintT(<<"DISAGREE", opt, c>>) /\ FALSE)
+  /\ EmitCases =>
+       PrintT(<<"OUT", ToJson([cs |-> opt.cs, radix |-> opt.radix,
+                               \* a second definition of a name: an error message of the code, nothing in the manual
+                               redef |-> \E i, j \in 1..Len(prog) : i < j /\ SameName(prog[i].name, prog[j].name, opt.cs),
+                               defs |-> [i \in 1..Len(prog) |-> [line |-> DefLine(prog[i]), mach |-> DefStatusM[i],
+                                                                  doc |-> DocDefStatus(prog[i], Info, opt.cs)]],
+                               cases |-> cs])>>)
 
 \* errors of the definitions exactly where the manual says (a second definition of a name: the manual is silent)
 DefAgreement ==
-  \A i \in 1..Len(prog) :
+  Ready => \A i \in 1..Len(prog) :
      LET ms == DefStatusM[i]
          ds == DocDefStatus(prog[i], Info, opt.cs)
      IN ms # "double" => ((ds = "error") <=> (ms # "ok"))
 
 \* CompressLine is undone by ExpandLine with the parameter names themselves (up to the case of the letters)
 TokenRoundTrip ==
-  \A i \in 1..Len(prog) :
+  Ready => \A i \in 1..Len(prog) :
      LET ps == [k \in 1..Len(prog[i].params) |-> Info[prog[i].params[k]].src]
          txt == TextOf(prog[i].body)
          RECURSIVE Back(_, _)
          Back(t, z) == IF z > Len(ps) THEN t ELSE Back(ExpandLine(ps[z], z, t), z + 1)
      IN (\A a, b \in 1..Len(ps) : a # b => ~SameName(ps[a], ps[b], opt.cs))
         => UpSeq(Back(CompressAll(ps, 1, txt, opt.cs), 1)) = UpSeq(txt)
-
-(* ---- export ------------------------------------------------------------------------------------------------------ *)
-Obs(v) == IF v.t = "D" THEN [k |-> "crash"] ELSE Observable(v)
-DefLine(d) ==
-  JoinS(d.name \o <<" ", "f", "u", "n", "c", "t", "i", "o", "n", " ">>
-        \o Explode([i \in 1..(2 * Len(d.params)) |-> IF i % 2 = 1 THEN d.params[(i + 1) \div 2] ELSE ","]) \o TextOf(d.body))
-CaseRec(p, tw, e) ==
-  LET dc == Doc(p, e) IN
-  [p |-> p, tw |-> tw, e |-> JoinS(TextOf(e)), doc |-> Obs(dc.r), mach |-> Obs(Mach(p, tw, e)), dev |-> dc.d,
-   call |-> IF e.k = "F" THEN JoinS(Info[e.f].src) ELSE "-"]
-Emit ==
-  EmitCases =>
-    PrintT(<<"OUT", ToJson([cs |-> opt.cs, radix |-> opt.radix,
-                            defs |-> [i \in 1..Len(prog) |-> [line |-> DefLine(prog[i]), mach |-> DefStatusM[i],
-                                                               doc |-> DocDefStatus(prog[i], Info, opt.cs)]],
-                            cases |-> {CaseRec(p, tw, e) : p \in Positions, tw \in BOOLEAN, e \in Probes(prog)}])>>)
 =============================================================================
